@@ -263,7 +263,7 @@ func runC12(h *H) {
 	imports := []string{"From GoImap.Base Require Import Bytes.", "From GoImap.Model Require Import ClientConn ClientConnCorr."}
 	corr := h.NewCorr("events", imports, "cc_mismatches", 150).Type("cc_case")
 	corrData := h.NewCorr("data", imports, "cd_mismatches", 150).Type("cd_case")
-	h.Rule("real imapclient.Client against a scripted server: batches of 1..4 pipelined commands (NOOP, STATUS, LIST, FETCH, UID FETCH, SEARCH, extended SEARCH, EXPUNGE) answered in every/random order with OK/NO/BAD (commands whose data would be ambiguous — two LISTs, two SEARCHes, two EXPUNGEs — in submission order), each LIST/SEARCH answer preceded by 0..3 data lines with globally unique items, a LOGIN whose synchronising literal the server refuses with a tagged NO or BAD, state-changing commands (LOGIN, SELECT of two mailboxes with their data block, UNSELECT, LOGOUT) on their own, unilateral EXISTS / EXPUNGE / FLAGS / PERMANENTFLAGS / FETCH / [CLOSED] / BYE-less noise interleaved anywhere, and finally the connection cut with commands still pending. After every step (closed by a NOOP round trip) State(), Mailbox() and the outcome of every Wait are compared with the model inside Coq and with a Go reference interpretation of the transcript (oracle: each command completes exactly once with the status of its own tagged response; a NO/BAD changes nothing else; the mailbox summary equals what the transcript implies; every LIST/SEARCH command's Collect/Wait returns exactly the data sent in answer to it; FETCH and UID FETCH get the messages of their own set whatever the order of the data items (UID last), extended SEARCH results are routed by their tag correlator even when answered out of order; the data collected by LIST/SEARCH/EXPUNGE commands is also re-derived by the model's routing function). Non-trivial = a step delivered responses out of submission order or changed the mailbox summary; distinct by script.")
+	h.Rule("real imapclient.Client against a scripted server: batches of 1..4 pipelined commands (NOOP, STATUS, LIST, FETCH, UID FETCH, SEARCH, extended SEARCH, EXPUNGE) answered in every/random order with OK/NO/BAD (commands whose data would be ambiguous — two LISTs, two SEARCHes, two EXPUNGEs — in submission order), each LIST/SEARCH answer preceded by 0..3 data lines with globally unique items, a LOGIN whose synchronising literal the server refuses with a tagged NO or BAD, state-changing commands (LOGIN, SELECT of two mailboxes with their data block, UNSELECT, LOGOUT) on their own, unilateral EXISTS / EXPUNGE / FLAGS / PERMANENTFLAGS / FETCH / [CLOSED] / BYE-less noise interleaved anywhere, and finally the connection cut with commands still pending. After every step (closed by a NOOP round trip) State(), Mailbox() and the outcome of every Wait are compared with the model inside Coq and with a Go reference interpretation of the transcript (oracle: each command completes exactly once with the status of its own tagged response; a NO/BAD changes nothing else; the mailbox summary equals what the transcript implies; every LIST/SEARCH command's Collect/Wait returns exactly the data sent in answer to it; FETCH and UID FETCH get the messages of their own set whatever the order of the data items (UID last), extended SEARCH results are routed by their tag correlator even when answered out of order; the data collected by LIST/SEARCH/EXPUNGE commands is also re-derived by the model's routing function). Directed cases (c12direct.go): FETCH / UID FETCH of a set ending in \"*\" (*, 5:*, 1:*, 2:*, UID *, UID 20:*, UID 8:*) and of the saved search result $ on a 3-message mailbox, before and after a unilateral EXISTS, must collect exactly the messages sent in answer; State()/Mailbox() read immediately after Select().Wait() / Unselect().Wait() returned must already show the new state (3000 trials with concurrent State() callers). Non-trivial = a step delivered responses out of submission order or changed the mailbox summary; distinct by script.")
 
 	runScript := func(seed int64, src string) {
 		rng := newRand(seed)
@@ -717,12 +717,17 @@ func runC12(h *H) {
 		}
 	}
 
+	if h.Replay != "" && replayField(h.Replay, "directed") != "" {
+		c12Directed(h)
+		return
+	}
 	if h.Replay != "" {
 		var seed int64
 		fmt.Sscan(replayField(h.Replay, "script_seed"), &seed)
 		runScript(seed, "replay")
 		return
 	}
+	c12Directed(h)
 	for i := 0; i < h.Pick(250, 4000); i++ {
 		runScript(h.Seed*100000+int64(i), "random")
 	}
